@@ -43,7 +43,7 @@ TIERS = {
 }
 
 
-NUM_SHAPES = 16 + 11 * 11      # Envelope!NumShapes
+NUM_SHAPES = 16 + 11 * 11 + 14      # Envelope!NumShapes
 HANDLERS = ['propagate', 'serverinfo', 'partstatus', 'notify', 'replreq', 'leaderoffset']
 CANON = {'len': 28, 'magicOK': True, 'verOK': True, 'hl': 8, 'crcFlag': False, 'otherFlags': False, 'typeOK': True,
          'crcOK': True}
@@ -59,6 +59,33 @@ def shape_sweep(first_id, seed):
         out.append({'id': first_id + len(out), 'cfg': {'seed': seed},
                     'steps': steps[k:k + 24] + [{'a': 'PublishRaw', 'i': CANON, 'pbOK': True, 'id': 1, 'shape': 'hdrReserved'},
                                                 {'a': 'ReadBack'}]})
+    return out
+
+
+def arrival_variants(first_id, seed, rng, behaviours):
+    """Arrival pattern and stream configuration (they are part of "any byte string arriving on a stream's subject"):
+    bursts - several messages back to back, nothing waits for the previous one to be stored - on ordinary streams
+    (the publishes of simulated behaviours) and on streams with optimistic concurrency control (envelopes without an
+    expected offset), and envelopes whose header count sits at the boundaries of the 16-bit count field of the
+    stored record."""
+    out = []
+    big = dict(CANON, len=40)
+    for n in (2, 12):
+        out.append({'id': first_id + len(out), 'cfg': {'seed': seed, 'occ': True},
+                    'steps': [{'a': 'Burst', 'pubs': [{'i': big, 'pbOK': True, 'id': k + 1, 'shape': 'occ'} for k in range(n)]},
+                              {'a': 'ReadBack'}]})
+    cands = [b for b in behaviours if sum(1 for s in b['steps'] if s['a'] == 'PublishRaw') >= 3]
+    rng.shuffle(cands)
+    for b in cands[:3]:
+        pubs = [dict(s) for s in b['steps'] if s['a'] == 'PublishRaw']
+        for k, p in enumerate(pubs):
+            p['id'] = k + 1
+            p.pop('a')
+        out.append({'id': first_id + len(out), 'cfg': {'seed': seed}, 'steps': [{'a': 'Burst', 'pubs': pubs}, {'a': 'ReadBack'}]})
+    counts = [32767, 32768, rng.randrange(32769, 60000)]
+    out.append({'id': first_id + len(out), 'cfg': {'seed': seed},
+                'steps': [{'a': 'PublishRaw', 'i': big, 'pbOK': True, 'id': k + 1, 'shape': 'hdrMany:%d' % n}
+                          for k, n in enumerate(counts)] + [{'a': 'ReadBack'}]})
     return out
 
 
@@ -198,7 +225,7 @@ def run_server(rep, d, behaviours, tracecfg, stats):
         crashes += 1
         it = json.load(open(intent))
         mine = [e for e in got if e.get('t') == it['t']]
-        if len(mine) != it['step'] + 1:  # Open + one line per completed step
+        if len(mine) != it.get('lines', it['step'] + 1):  # Open + the lines of the completed steps
             raise core.Inconclusive('process died outside a pending step: %s' % out[-3000:])
         stored = mine[-1]['st']['stored']
         a = it.get('a', 'PublishRaw')
@@ -287,6 +314,7 @@ def run(rep, tier, seed, replay):
                 if steps[-1]['a'] != 'ReadBack':
                     steps.append({'a': 'ReadBack'})
                 behaviours.append({'id': n + 1, 'cfg': {'seed': seed}, 'steps': steps})
+        behaviours += arrival_variants(len(sims) + 2000, seed, rng, behaviours)
         behaviours += shape_sweep(len(sims) + 1000, seed)
         npub = run_server(rep, d, behaviours, T['trace'], stats)
     rep.cov['traces_validated_against_impl'] = n1 + n2 + len(behaviours)
